@@ -575,12 +575,16 @@ impl World {
     }
     /// all farms through the paginated public query (page size `limit`)
     pub fn farms_via_query(&self, limit: u32) -> Result<Vec<Farm>, String> {
+        self.farms_via_query_by(None, limit)
+    }
+    /// the same, restricted by a filter of the public query
+    pub fn farms_via_query_by(&self, filter_by: Option<mantra_dex_std::farm_manager::FarmsBy>, limit: u32) -> Result<Vec<Farm>, String> {
         let mut out: Vec<Farm> = vec![];
         let mut start_after: Option<String> = None;
         for _ in 0..200 {
             let r: Result<mantra_dex_std::farm_manager::FarmsResponse, _> = self.app.wrap().query_wasm_smart(
                 self.a.fm.to_string(),
-                &mantra_dex_std::farm_manager::QueryMsg::Farms { filter_by: None, start_after: start_after.clone(), limit: Some(limit) },
+                &mantra_dex_std::farm_manager::QueryMsg::Farms { filter_by: filter_by.clone(), start_after: start_after.clone(), limit: Some(limit) },
             );
             let r = r.map_err(|e| e.to_string())?;
             let n = r.farms.len();
